@@ -64,6 +64,16 @@ func vfAdvClasses() []vfAdvClass {
 			ca, _, _, _ := live(w, to)
 			return w.vfForge(to, vfEncSack(ca, 100000, [][2]int{{4, 5}, {2, 4}}, nil))
 		}},
+		// a block that reaches far beyond anything sent, followed by a perfectly valid one: validating only the last
+		// block (or only one end of each) is not enough
+		{"sack-gaps-first-beyond", func(w *vfWorld, to int, il bool) []byte {
+			ca, _, _, _ := live(w, to)
+			return w.vfForge(to, vfEncSack(ca, 100000, [][2]int{{1, 1000}, {1, 1}}, nil))
+		}},
+		{"sack-gaps-middle-beyond", func(w *vfWorld, to int, il bool) []byte {
+			ca, _, _, _ := live(w, to)
+			return w.vfForge(to, vfEncSack(ca, 100000, [][2]int{{1, 1}, {2, 40000}, {2, 2}}, nil))
+		}},
 		{"sack-many-dups", func(w *vfWorld, to int, il bool) []byte {
 			ca, _, _, _ := live(w, to)
 			d := make([]uint32, 200)
